@@ -17,7 +17,7 @@ sys.path.insert(0, os.path.join(os.path.dirname(os.path.abspath(__file__)), ".."
 import vlib, runner
 
 PID = "C08"
-NB, NC = 27, 42          # 30 built-in classes + 12 decoy classes of the harness whose names extend / shorten / re-case built-in names
+NB, NC = 29, 42          # 30 built-in classes + 12 decoy classes of the harness whose names extend / shorten / re-case built-in names
 MEMBERS = [6, 1, 1, 1, 2, 2, 1, 1, 1, 1, 1, 1, 5, 4, 2, 6, 1, 1, 1, 1, 1, 8, 2, 1, 2, 2, 1, 4, 3, 1] + [1] * 12
 HOWS = ["inst", "impl", "tinst", "timpl", "meth", "tmeth", "implm", "timplm"]
 
@@ -54,6 +54,9 @@ def runtime_exec(rng, big=False):
     for _ in range(6):
         a, b = rng.randrange(NB), rng.randrange(NB)
         L.append("cast %d %d" % (a, b if rng.random() < 0.7 else a))
+    for a in (27, 28):                                   # types with a Cast instance of their own, as object and as target
+        for b in (27, 28, 4, rng.randrange(NB)):
+            L.append("cast %d %d" % (a, b)); L.append("cast %d %d" % (b, a))
     return L
 
 
